@@ -75,6 +75,8 @@ THEOREMS = [
     'C16.gen_normal_unit_along_reciprocal', 'C16.normal_scale', 'C16.gen_normal_scale_invariant',
     'C16.gen_vector_scale', 'C16.gen_plane34_roundtrip', 'C16.gen_vector34_roundtrip', 'C16.gen_box_cs_agree',
     'C16.gen_identify_iff_pred',
+    # statement audit: the centering theorems cover the whole regenerated table; identification without the window hypothesis
+    'C16.centering_settings_exhaustive', 'C16.identify_iff_pred_exact',
 ]
 PARTIAL = {}
 GENERATED = ['MillerTables', 'MillerSource']
